@@ -46,7 +46,7 @@ def run(chk):
     chk.sample(json.loads(open(tr).readline()))
     chk.rule = ("TLC enumerates (target width x constructor x range) with bounds at type min/max +-1, -1, 0, 1 and for each the candidate "
                 "strings (all strings <= 3 over {+,-,0,1,9,space,a,0xFF} plus signed/zero-padded/suffixed spellings of every boundary "
-                "number and 19-21 digit numbers); bool/boolish/falsey/possible/non-empty/string/os parsers over all case variants and "
+                "number and 19-21 digit numbers); bool/boolish/falsey/possible/enum (EnumValueParser over a ValueEnum with an alias and a hidden variant)/non-empty/string/os/pathbuf parsers over all case variants and "
                 "near-misses of their literals; typed-access histories over 4 ids x 2 types. Every case is parsed by the real Command and "
                 "read back with get_one::<T>. Random 64-bit ranges/strings are recorded and validated by Trace_C04.tla. "
                 "Non-trivial = distinct (parser, range) configurations + distinct recorded lines.")
